@@ -77,7 +77,7 @@ def _root_local_of_key(k):
 
 class PathSens:
     def __init__(self, body, program, track=None, local_crates=("llfree", "llfree_eval", "replay"),
-                 max_states=60000, reset_edges=None):
+                 max_states=60000, reset_edges=None, err_domains=None):
         self.body = body
         self.program = program
         self.local_crates = set(local_crates)
@@ -85,6 +85,8 @@ class PathSens:
         self.max_states = max_states
         # (from_block, to_block) -> call-site blocks whose status fact is forgotten on that edge
         self.reset_edges = reset_edges or {}
+        # callee name -> set of llfree::Error discriminants its Err results can carry
+        self.err_domains = err_domains or {}
         self._build_static()
         self.nodes = {}      # node -> index
         self.node_list = []
@@ -174,7 +176,7 @@ class PathSens:
             del env[k]
 
     def _kill_prefix(self, env, root, s):
-        for k in [k for k in env if k[0] == "d" and k[1] == root and k[2][:len(s)] == s]:
+        for k in [k for k in env if k[0] in ("d", "pv") and k[1] == root and k[2][:len(s)] == s]:
             del env[k]
 
     def _learn(self, env, key, val, depth=0):
@@ -270,6 +272,13 @@ class PathSens:
     # ------------------------------------------------------------------ transfer
     def _domain_of_discr(self, rv):
         of = rv.get("of")
+        if of == "llfree::Error" and self.err_domains:
+            r, s = self.canon_place(rv["place"])
+            d = self.single.get(r)
+            if d is not None and d[0] == "call" and s and s[0] == "as1":
+                name = callee_name(d[2]["callee"])
+                if name in self.err_domains:
+                    return set(self.err_domains[name])
         if of in STD_DOMAINS:
             return STD_DOMAINS[of]
         for c in self.program.crates.values():
@@ -348,6 +357,7 @@ class PathSens:
             r, s = self.canon_place(op["place"])
             if s == ():
                 return env.get(("v", r))
+            return env.get(("pv", r, s))
         return None
 
     def _block_transfer(self, bi, env_in):
@@ -436,7 +446,7 @@ class PathSens:
                 out.append((tg, env, ("sw", d["val"])))
             elif d["k"] in ("copy", "move"):
                 r, s = self.canon_place(d["place"])
-                key = ("v", r) if s == () else None
+                key = ("v", r) if s == () else ("pv", r, s)
                 domain = None
                 if key is not None:
                     sd = self.single.get(r)
